@@ -464,9 +464,41 @@ func driveC02(seed int64, tier, out, replay string) {
 			`{ me { ... on Human { name } ... on Node { uid: id } } }`,
 			`{ me { ... on Human @include(if: true) { id } ... on Node { __typename } phone } }`,
 			`{ beings { ... on Node { ... on Node { id } } ... on Being { __typename } } }`,
+			// variables in directives of fields and of fragments (fix 0156dcf; the first one formerly the listed finding
+			// C02-directive-variable); the values are in handVars
+			`query($s: Boolean!){ me { name phone @skip(if: $s) } }`,
+			`query($s: Boolean = true, $t: Boolean!){ me { name friend @include(if: $s) { phone @skip(if: $t) name } } }`,
+			`query($s: Boolean!){ beings { ... on Pet @skip(if: $s) { kind weight } ... on Human { name } } }`,
+			`query($s: Boolean!, $a: Int){ beings { ... on Human @include(if: $s) { phone(a: $a) } ... on Pet { owner { name @skip(if: $s) } } } }`,
 		} {
 			op := gen.GenOp{Query: q, Kind: "query"}
+			if strings.Contains(q, "$s") {
+				op.Variables = map[string]interface{}{"s": len(q)%2 == 0, "t": false, "a": 3}
+				if !strings.Contains(q, "$t") {
+					delete(op.Variables, "t")
+				}
+				if !strings.Contains(q, "$a") {
+					delete(op.Variables, "a")
+				}
+			}
 			hc := c02Case{Hand: true, Op: &op}
+			if len(op.Variables) > 0 {
+				// these go through the gateway as well: every sub-request valid for its service, variables accompanied
+				hand.ResetLogs()
+				what, _ := compareFed(hand, op)
+				if w2 := subrequestProblems(hand.Logs()); w2 != "" {
+					what = w2
+				} else if w3 := missingVariables(op, hand.Logs()); w3 != "" {
+					what = w3
+				}
+				if what != "" && !strings.HasPrefix(what, "skip:") {
+					obs.Fail(idx, what, hc)
+				}
+				for _, sc := range stepsCoq(hand, op, hand.Logs()) {
+					coq = append(coq, sc)
+					obs.CaseInputs = append(obs.CaseInputs, hc)
+				}
+			}
 			if pl, ok := wholePlanCoq(hand, op); ok {
 				coq = append(coq, pl)
 				obs.CaseInputs = append(obs.CaseInputs, hc)
